@@ -140,7 +140,9 @@ class Fragment:
         collector(self)
 
         new_domains = []
-        for domain_name in collector.used_domains - collector.defined_domains:
+        # Iterate in a fixed order: the order of a set of strings depends on the string hash seed,
+        # and it determines the order of the ports of the newly created domains.
+        for domain_name in sorted(collector.used_domains - collector.defined_domains):
             if domain_name == "comb":
                 continue
             value = missing_domain(domain_name)
